@@ -129,7 +129,33 @@ type objM struct {
 	ops []Op
 }
 
-func (o *objM) MarshalZerologObject(e *zerolog.Event) { ApplyEvent(e, o.ops) }
+func (o *objM) MarshalZerologObject(e *zerolog.Event) {
+	if o == nil {
+		return // a nil-safe pointer receiver: the nil pointer is an object without fields
+	}
+	ApplyEvent(e, o.ops)
+}
+
+// mapObjM is a map type that logs itself; the nil map is an object without fields.
+type mapObjM map[string]string
+
+func (m mapObjM) MarshalZerologObject(e *zerolog.Event) {
+	for k, v := range m {
+		e.Str(k, v)
+	}
+}
+
+// mkObj builds the LogObjectMarshaler a Val of type obj/embed stands for: EK "nilptr" is a typed nil pointer
+// whose method copes, "nilmap" a nil map with a value receiver (both non-nil interfaces, both {}).
+func mkObj(v Val) zerolog.LogObjectMarshaler {
+	switch v.EK {
+	case "nilptr":
+		return (*objM)(nil)
+	case "nilmap":
+		return mapObjM(nil)
+	}
+	return &objM{v.Ops}
+}
 
 // arrM replays elements on the array it is given.
 type arrM struct{ l []Val }
@@ -408,13 +434,13 @@ func ApplyEvent(e *zerolog.Event, ops []Op) *zerolog.Event {
 			if v.Nil {
 				e = e.Object(k, nil)
 			} else {
-				e = e.Object(k, &objM{v.Ops})
+				e = e.Object(k, mkObj(v))
 			}
 		case "embed":
 			if v.Nil {
 				e = e.EmbedObject(nil)
 			} else {
-				e = e.EmbedObject(&objM{v.Ops})
+				e = e.EmbedObject(mkObj(v))
 			}
 		case "fieldsmap":
 			e = e.Fields(FieldsMap(v.Ops))
@@ -554,13 +580,13 @@ func ApplyContext(c zerolog.Context, ops []Op) zerolog.Context {
 			if v.Nil {
 				c = c.Object(k, nil)
 			} else {
-				c = c.Object(k, &objM{v.Ops})
+				c = c.Object(k, mkObj(v))
 			}
 		case "embed":
 			if v.Nil {
 				c = c.EmbedObject(nil)
 			} else {
-				c = c.EmbedObject(&objM{v.Ops})
+				c = c.EmbedObject(mkObj(v))
 			}
 		case "fieldsmap":
 			c = c.Fields(FieldsMap(v.Ops))
@@ -630,7 +656,7 @@ func ApplyArray(a *zerolog.Array, l []Val) *zerolog.Array {
 		case "mac":
 			a = a.MACAddr(mac(v))
 		case "obj":
-			a = a.Object(&objM{v.Ops})
+			a = a.Object(mkObj(v))
 		case "dict":
 			a = a.Dict(BuildDict(v.Ops))
 		default:
@@ -766,7 +792,7 @@ func FieldsGo(v Val) interface{} {
 	case "rawjson":
 		return json.RawMessage(v.S)
 	case "obj":
-		return &objM{v.Ops}
+		return mkObj(v)
 	case "iface", "any":
 		return v.If.Go()
 	}
@@ -919,6 +945,14 @@ func (s Settings) Apply() (restore func()) {
 		}
 	case "nil":
 		zerolog.ErrorMarshalFunc = func(err error) interface{} { return nil }
+	case "nilobj":
+		// errors rendered as objects, and errors without details as a typed nil pointer of that type
+		zerolog.ErrorMarshalFunc = func(err error) interface{} {
+			if isNilErr(err) {
+				return nil
+			}
+			return (*objM)(nil)
+		}
 	case "struct":
 		zerolog.ErrorMarshalFunc = func(err error) interface{} {
 			if isNilErr(err) {
